@@ -232,6 +232,14 @@ UCB_IA = ('(vdot(row(%s, i), %s) + self.alpha * sqrt(vdot(vecmat(row(%s, i), %s)
           % (XPA, MV('beta'), XPA, MV('A_inv'), XPA))
 DET_IA = '(%s if self.regression == "ridge" else %s)' % (RIDGE_IA, UCB_IA)
 EXP_ROW = '(result if is_dict(result) else item(result, i))'
+
+
+def AT0(t):
+    """the clause for the single row of a one-row query: row index 0"""
+    import re as _re
+    return _re.sub(r'\bi\b', '0', t)
+
+
 MASK = 'lt_mask(%s, self.epsilon)' % P_
 RANDOM = 'draw_um(next_uv(%s, rows(contexts)), n_true(%s), slen(self.arms))' % (S0, MASK)
 ANY_IA = '(mat_at(%s, rank_true(%s, i), pos(self.arms, a)) if at(%s, i) < self.epsilon else %s)' % (RANDOM, MASK, P_, DET_IA)
@@ -248,14 +256,17 @@ fn('linear._Linear._vectorized_predict_context', props='C02 C08 C09 C10',
             'forall_int(lambda j: implies(0 <= j and j < rows(contexts), mem(self.arms, at(result, j)))))',
             # C02: with no exploring row (always the case for epsilon = 0) every expectation is the model's prediction
             '[C02,exploit] is_predict or self.regression == "ts" or implies(%s, forall_int(lambda i: implies(0 <= i and '
-            'i < rows(contexts), forall_arm(lambda a: implies(mem(self.arms, a), val(%s, a) == %s)))))'
-            % (NONE_RANDOM, EXP_ROW, DET_IA),
+            'i < rows(contexts), forall_arm(lambda a: implies(mem(self.arms, a), val(%s, a) == %s), '
+            'lambda a: val(%s, a)))))' % (NONE_RANDOM, EXP_ROW, DET_IA, EXP_ROW),
             # ... and an exploring row holds its own row of uniform draws: every expectation of every row is determined
-            '[C02,C05,rows] is_predict or self.regression == "ts" or forall_int(lambda i: implies(0 <= i and '
-            'i < rows(contexts), forall_arm(lambda a: implies(mem(self.arms, a), val(%s, a) == %s))))' % (EXP_ROW, ANY_IA),
-            '[C09,C05,rows.argmax] (not is_predict) or self.regression == "ts" or forall_int(lambda i: implies(0 <= i and '
-            'i < rows(contexts), is_first_argmax((result if not is_list(result) else at(result, i)), self.arms, '
-            'lambda a: %s)))' % ANY_IA,
+            '[C02,C05,rows] is_predict or self.regression == "ts" or (%s if is_dict(result) else %s)'
+            % ('forall_arm(lambda a: implies(mem(self.arms, a), val(result, a) == %s), lambda a: val(result, a))' % AT0(ANY_IA),
+               'forall_int(lambda i: implies(0 <= i and i < rows(contexts), forall_arm(lambda a: implies(mem(self.arms, a), '
+               'val(item(result, i), a) == %s))))' % ANY_IA),
+            '[C09,C05,rows.argmax] (not is_predict) or self.regression == "ts" or (%s if not is_list(result) else %s)'
+            % ('is_first_argmax(result, self.arms, lambda a: %s)' % AT0(ANY_IA),
+               'forall_int(lambda i: implies(0 <= i and i < rows(contexts), is_first_argmax(at(result, i), self.arms, '
+               'lambda a: %s)))' % ANY_IA),
             # C09: predict takes the first arm attaining the maximum of the same expectations
             '[C09,argmax] (not is_predict) or self.regression == "ts" or implies(%s, forall_int(lambda i: implies(0 <= i and '
             'i < rows(contexts), is_first_argmax((result if not is_list(result) else at(result, i)), self.arms, '
